@@ -44,7 +44,7 @@ CHECKS = {
          "Exploration over generated registries with arbitrary Unicode; compares serde_json::to_value with the reference writer and checks from_value / from_str / pretty read-back and JSON==SCALE information content.",
          "Trusted: serde_json; reference writer harness/vcore/src/refjson.rs. Not asserted: member names inside a bitsequence object; null vs omitted type of a skipped parameter.", "2/C08"),
  "C10": ("model-based PBT: retain vs reference reachability + substitution on generated well-formed registries x masks (proptest); libFuzzer target retain in thorough",
-         "Exploration over (registry, mask) pairs with cycles, self loops and params-only edges; oracle checks key set, bijection onto 0..m, well-formedness and per-entry equality modulo renaming.",
+         "Exploration over (registry, mask) pairs with cycles, self loops and params-only edges; oracle checks key set, bijection onto 0..m, well-formedness and per-entry equality modulo renaming. Histories (retain_chains): the same library object, optionally obtained by SCALE or JSON decoding, is retained 2-4 times in a row and then encoded; each step is judged against the model of the previous step.",
          "Trusted: the model's reference positions (MType::refs) enumerate the positions named in the statement.", "2/C10"),
  "C12": ("stateful model-based PBT: operation sequences on Interner / PortableRegistryBuilder vs a duplicate-free Vec (proptest)",
          "Exploration over op sequences with forced duplicates, self references through next_type_id and out-of-range lookups; every return value compared after every step.",
